@@ -5,7 +5,9 @@ add("C10", "fault_enumeration",
     "tagged read-modify-write transactions through the store's real begin/tx/commit/rollback API "
     "and the tx! macro on a multi-thread runtime; each ends by commit, rollback, failing statement "
     "+ `?`, explicit permit drop, cancellation of its hand-polled future after the j-th Pending "
-    "(enumerated j = 1, 2, ... per round) or task abort; wedge decided on runtime state",
+    "(enumerated j = 1, 2, ... per round) or task abort; in every round a cooperating clone of the "
+    "store (own task) is inside a multi-statement, yielding store.tx(..) closure of the transaction "
+    "while its owner ends it by each of these kinds; wedge decided on runtime state",
     "Every round the committed tables are read back and compared with 'exactly the committed "
     "transactions applied one after another': counter == number of transactions present, the "
     "counter values they read are a permutation of 0..n, commit-before-begin pairs are ordered, "
